@@ -39,7 +39,7 @@ fn seqs(v: &[Sample<KeyedData>]) -> Vec<(u8, u32)> {
 }
 
 // ---- C24 -----------------------------------------------------------------------------------------------------------
-async fn c24_owner(ctx: Ctx, how: u8) {
+async fn c24_owner(ctx: Ctx, how: u8, n: u8) {
     let f = ctx.factory("", None);
     let n1 = node::<KeyedData>(&f, 0, "T").await;
     let n2 = node::<KeyedData>(&f, 0, "T").await;
@@ -52,46 +52,60 @@ async fn c24_owner(ctx: Ctx, how: u8) {
         ctx.violation("setup/no-match", "no match");
         return;
     }
-    w1.write(sample(1, 1, 8), None).await.expect("write w1");
+    // the strong writer owns n instances (seeded change C24-3 released only the first one when the owner went away)
+    for id in 1..=n {
+        w1.write(sample(id, 1, 8), None).await.expect("write w1");
+    }
     ctx.sleep_ms(300).await;
     let got = seqs(&take_all(&r).await);
-    if got != vec![(1, 1)] {
+    if got != (1..=n).map(|id| (id, 1)).collect::<Vec<_>>() {
         ctx.violation("setup/owner-sample-not-presented", format!("{got:?}"));
         return;
     }
+    let all_w2: Vec<(u8, u32)> = (1..=n).map(|id| (id, 2)).collect();
     match how {
         0 => {
-            // the owner is deleted: ownership passes to the remaining (weaker) writer
+            // the owner is deleted: ownership of every instance passes to the remaining (weaker) writer
             n1.publisher.delete_datawriter(&w1).await.expect("delete w1");
             ctx.sleep_ms(600).await;
             let _ = take_all(&r).await;
-            w2.write(sample(1, 2, 8), None).await.expect("write w2");
+            for id in 1..=n {
+                w2.write(sample(id, 2, 8), None).await.expect("write w2");
+            }
             ctx.sleep_ms(600).await;
             let got = seqs(&take_all(&r).await);
-            if !got.contains(&(1, 2)) {
-                ctx.violation("owner-deleted/weaker-writer-never-takes-over", format!("the owner (strength 10) was deleted, the remaining writer (strength 5) wrote the instance: reader presented {got:?}"));
+            if all_w2.iter().any(|x| !got.contains(x)) {
+                ctx.violation("owner-deleted/weaker-writer-never-takes-over", format!("the owner (strength 10) of {n} instance(s) was deleted, the remaining writer (strength 5) wrote them: reader presented {got:?}"));
             }
         }
         1 => {
             // a dispose is not an unregister: the owner stays the owner
-            w1.dispose(sample(1, 1, 8), None).await.expect("dispose w1");
+            for id in 1..=n {
+                w1.dispose(sample(id, 1, 8), None).await.expect("dispose w1");
+            }
             ctx.sleep_ms(300).await;
             let _ = take_all(&r).await;
-            w2.write(sample(1, 2, 8), None).await.expect("write w2");
+            for id in 1..=n {
+                w2.write(sample(id, 2, 8), None).await.expect("write w2");
+            }
             ctx.sleep_ms(600).await;
             let got = seqs(&take_all(&r).await);
-            if got.contains(&(1, 2)) {
-                ctx.violation("dispose-released-ownership", format!("the owner (strength 10) disposed the instance but is alive and registered; the weaker writer's sample was presented: {got:?}"));
+            if all_w2.iter().any(|x| got.contains(x)) {
+                ctx.violation("dispose-released-ownership", format!("the owner (strength 10) disposed the instance(s) but is alive and registered; the weaker writer's sample was presented: {got:?}"));
             }
         }
         _ => {
-            w1.unregister_instance(sample(1, 1, 8), None).await.expect("unregister w1");
+            for id in 1..=n {
+                w1.unregister_instance(sample(id, 1, 8), None).await.expect("unregister w1");
+            }
             ctx.sleep_ms(300).await;
             let _ = take_all(&r).await;
-            w2.write(sample(1, 2, 8), None).await.expect("write w2");
+            for id in 1..=n {
+                w2.write(sample(id, 2, 8), None).await.expect("write w2");
+            }
             ctx.sleep_ms(600).await;
             let got = seqs(&take_all(&r).await);
-            if !got.contains(&(1, 2)) {
+            if all_w2.iter().any(|x| !got.contains(x)) {
                 ctx.violation("owner-unregistered/weaker-writer-never-takes-over", format!("{got:?}"));
             }
         }
@@ -1127,7 +1141,9 @@ pub fn extra(id: &str) -> Vec<Scenario> {
     match id {
         "C24" => {
             for (k, n) in [(0u8, "owner-deleted"), (1, "owner-disposes"), (2, "owner-unregisters")] {
-                add(n.into(), Scenario::new(format!("C24.audit[{n}]"), 0, move |ctx| c24_owner(ctx, k)));
+                for inst in [1u8, 3] {
+                    add(n.into(), Scenario::new(format!("C24.audit[{n},instances={inst}]"), 0, move |ctx| c24_owner(ctx, k, inst)));
+                }
             }
         }
         "C04" => {
